@@ -441,7 +441,7 @@ func (c *ctxConn) Read(b []byte) (n int, err error) {
 func (c *ctxConn) Write(b []byte) (n int, err error) {
 	for {
 		if err = c.writeCtx.Err(); err != nil {
-			return 0, err
+			return n, err
 		}
 
 		deadline := time.Now().Add(c.writeTimeout)
@@ -452,15 +452,18 @@ func (c *ctxConn) Write(b []byte) (n int, err error) {
 		}
 
 		if err = c.conn.SetWriteDeadline(deadline); err != nil {
-			return 0, err
+			return n, err
 		}
 
-		n, err = c.conn.Write(b)
+		var m int
+		m, err = c.conn.Write(b[n:])
+		n += m
 		if err != nil {
 			if netErr, ok := err.(net.Error); ok && netErr.Timeout() && netErr.Temporary() {
+				// a partial write is progress: go on with the rest only
 				continue
 			}
-			return 0, err
+			return n, err
 		}
 
 		return n, nil
